@@ -240,6 +240,41 @@ fn c08_elitism_add_all_k3_n2_max4() {
     add_all_step::<3, 2, 4>();
 }
 
+// @verif props=C08 tier=quick ob=elitism_step fn=Elitism::add_all,Elitism::add_with_iter,Elitism::sort,Elitism::ensure_max_population_size,Elitism::is_improved bounds="arbitrary sorted state of 0 individuals, batch of 2 LARGER than max_population_size=1; dedup predicate nondeterministic"
+#[kani::proof]
+#[kani::unwind(8)]
+fn c08_elitism_add_all_k0_n2_max1() {
+    add_all_step::<0, 2, 1>();
+}
+
+// @verif props=C08 tier=quick ob=elitism_step fn=Elitism::add_all,Elitism::add_with_iter,Elitism::sort,Elitism::ensure_max_population_size,Elitism::is_improved bounds="arbitrary sorted state of 1 individuals, batch of 2 LARGER than max_population_size=1; dedup predicate nondeterministic"
+#[kani::proof]
+#[kani::unwind(8)]
+fn c08_elitism_add_all_k1_n2_max1() {
+    add_all_step::<1, 2, 1>();
+}
+
+// @verif props=C08 tier=thorough ob=elitism_step fn=Elitism::add_all,Elitism::add_with_iter,Elitism::sort,Elitism::ensure_max_population_size,Elitism::is_improved bounds="arbitrary sorted state of 1 individuals, batch of 3 LARGER than max_population_size=2; dedup predicate nondeterministic"
+#[kani::proof]
+#[kani::unwind(8)]
+fn c08_elitism_add_all_k1_n3_max2() {
+    add_all_step::<1, 3, 2>();
+}
+
+// @verif props=C08 tier=thorough ob=elitism_step fn=Elitism::add_all,Elitism::add_with_iter,Elitism::sort,Elitism::ensure_max_population_size,Elitism::is_improved bounds="arbitrary sorted state of 2 individuals, batch of 3 LARGER than max_population_size=2; dedup predicate nondeterministic"
+#[kani::proof]
+#[kani::unwind(8)]
+fn c08_elitism_add_all_k2_n3_max2() {
+    add_all_step::<2, 3, 2>();
+}
+
+// @verif props=C08 tier=thorough ob=elitism_step fn=Elitism::add_all,Elitism::add_with_iter,Elitism::sort,Elitism::ensure_max_population_size,Elitism::is_improved bounds="arbitrary sorted state of 0 individuals, batch of 3 LARGER than max_population_size=1; dedup predicate nondeterministic"
+#[kani::proof]
+#[kani::unwind(8)]
+fn c08_elitism_add_all_k0_n3_max1() {
+    add_all_step::<0, 3, 1>();
+}
+
 // @verif props=C08 tier=quick ob=elitism_select fn=Elitism::select,Elitism::on_generation bounds="state of 0..=3 individuals, selection_size 0..=3, speed Unknown|Slow{ratio in {0,1/4,..,1}}; random index arbitrary within its contract"
 #[kani::proof]
 #[kani::unwind(6)]
